@@ -479,3 +479,39 @@ reg(Zoo(
         ],
     ),
 ))
+
+
+# ------------------------------------------------------------------------------------------------
+# fe_<frontend>: one flat machine written in several front-end syntaxes; guards are expressions over
+# three named atoms (the evaluation order of the atoms is part of the trace), actions are sequences
+def _fe_variants():
+    for fk in ('functor', 'basic', 'basic2', 'puml'):
+        z = Zoo(
+            name='fe_' + fk,
+            events=['e1', 'e2', 'e3'],
+            atoms_g=['G1', 'G2', 'G3'],
+            atoms_a=['A1', 'A2', 'A3'],
+            frontend=fk,
+            cxx='20' if fk == 'puml' else '17',
+            root=Machine(
+                'Fe',
+                states=[S('A'), S('B'), S('C')],
+                initial=['A'],
+                rows=[
+                    Row('A', 'e1', 'B', gexpr=('and', 'G1', 'G2'), aseq=['A1', 'A2']),
+                    Row('A', 'e1', 'C', gexpr=('or', ('not', 'G1'), 'G3'), aseq=['A3']),
+                    Row('A', 'e2', None, gexpr=('or', 'G2', ('and', 'G3', ('not', 'G1'))), aseq=['A2', 'A1']),
+                    Row('B', 'e1', 'A', gexpr=('and', 'G1', ('or', 'G2', ('not', 'G3'))), a=False),
+                    Row('B', 'e2', 'C', g=False, aseq=['A1']),
+                    Row('B', 'e3', 'B', gexpr=('not', 'G2'), aseq=['A3', 'A3']),
+                    Row('C', 'e1', 'A', gexpr=('and', ('or', 'G1', 'G2'), 'G3'), aseq=['A2', 'A3', 'A1']),
+                    Row('C', 'e3', 'C', gexpr=('or', ('and', 'G1', 'G2'), 'G3'), a=False),
+                    Row('C', 'e2', 'B', a=False, g=False),
+                    Row('A', 'e3', 'A', gexpr=('or', 'G1', ('or', 'G2', 'G3')), aseq=['A1']),
+                ],
+            ),
+        )
+        reg(z)
+
+
+_fe_variants()
